@@ -87,11 +87,15 @@ class Lock:
 
 
 def _prune_cache(keep):
+    """drop fact sets of trees that are no longer around: only entries untouched for an hour (another process may be
+    extracting into a younger one right now), and only beyond the eight most recent"""
     try:
+        now = time.time()
         ents = [e for e in os.listdir(CACHE) if os.path.isdir(os.path.join(CACHE, e)) and e != keep]
         ents.sort(key=lambda e: os.path.getmtime(os.path.join(CACHE, e)))
-        for e in ents[:-3]:
-            shutil.rmtree(os.path.join(CACHE, e), ignore_errors=True)
+        for e in ents[:-8]:
+            if now - os.path.getmtime(os.path.join(CACHE, e)) > 3600:
+                shutil.rmtree(os.path.join(CACHE, e), ignore_errors=True)
     except OSError:
         pass
 
